@@ -174,9 +174,11 @@ def translate(repo, outdir):
 # operation encoding (see coq/orm/SessTxnRun.v)
 NEW, ADD, SETV, SETPK, DEL, FLUSH, NESTED, COMMIT, ROLLBACK, TCOMMIT, TROLLBACK, CLOSE, LOAD = range(13)
 OPNAMES = ["new", "add", "set_v", "set_id", "delete", "flush", "begin_nested", "commit", "rollback",
-           "h.commit", "h.rollback", "close", "load"]
+           "h.commit", "h.rollback", "close", "load", "flush(fault)"]
 ACTIVE, PREPARED, COMMITTED, DEACTIVE, CLOSED = 1, 2, 3, 4, 5
 E_INV, E_PENDING, E_CLOSED, E_INTEG, E_OBJDEL, E_FLUSH, E_ILLEGAL, E_ASSERT, E_NOHANDLE, E_STALE, E_DETACHED = 1, 2, 3, 4, 5, 6, 7, 8, 9, 10, 11
+E_FAULT, E_EVENT = 12, 13   # C32 (specs/c32.py): injected driver error / exception raised by a flush event
+FLUSHF = 13                 # C32 operation [13, kind, k]: flush with a fault (coq/orm/FlushFail.v)
 NOVAL = "NOVAL"
 
 
@@ -234,6 +236,15 @@ class PyModel:
         self.saves = []
         self.nfid = 0
         self.bad = None  # first guard clause violated (g1..g6)
+        self.fault_k = None  # C32: number of DML statements that still succeed before the injected failure
+
+    def _dml(self):
+        """C32 hook: called after every INSERT/UPDATE/DELETE took effect"""
+        if self.fault_k is not None:
+            if self.fault_k == 0:
+                self.fault_k = None
+                raise _Raise(E_FAULT)
+            self.fault_k -= 1
 
     def flag(self, g):
         if self.bad is None:
@@ -457,9 +468,11 @@ class PyModel:
         if to_root and self.stack:
             self.t_rollback(self.stack[0], True)
 
-    def flush(self):
+    def flush(self, fault=None):
         if self.is_clean():
             return
+        if fault == "pre":
+            raise _Raise(E_EVENT)
         dirty = [o for o in self.imap.values() if self.objs[o].modf]
         deleted = list(self.sdel)
         new = list(self.snew)
@@ -467,7 +480,13 @@ class PyModel:
         f = self.autobegin()
         self.check_prereq(f, (ACTIVE,))
         try:
-            self.flush_exec(f, new, dirty, deleted)
+            self.fault_k = fault[1] if isinstance(fault, tuple) else None
+            try:
+                self.flush_exec(f, new, dirty, deleted, fault)
+            finally:
+                self.fault_k = None
+            if fault == "post":
+                raise _Raise(E_EVENT)
         except _Raise:
             if f.conn:
                 if f.nested:
@@ -481,7 +500,7 @@ class PyModel:
             f.rbexc = True
             raise
 
-    def flush_exec(self, f, new, dirty, deleted):
+    def flush_exec(self, f, new, dirty, deleted, fault=None):
         objs = self.objs
         self.provision(f)
         persistent = sorted(dirty, key=lambda o: objs[o].key)
@@ -502,42 +521,19 @@ class PyModel:
                         already = True
                 if not already and ex in deleted:
                     raise OutOfScope("row switch")
-        for o in persistent:
-            ob = objs[o]
-            set_id = ob.cid is not None and ob.did is not None and ob.cid != ob.did
-            set_v = ob.cv is not None and ob.cv[0] != ob.dv
-            if not (set_id or set_v):
-                continue
-            if ob.cid is None and ob.did is None:
-                self.load_expired(o, True)
-            where = ob.cid if ob.cid is not None else ob.did
-            if where is None:
-                raise OutOfScope("no pk")
-            if where not in self.work:
-                raise _Raise(E_STALE)
-            newpk = ob.did if set_id else where
-            if set_v and ob.dv is None:
-                raise OutOfScope("v deleted")
-            newv = ob.dv if set_v else self.work[where]
-            if newpk != where and newpk in self.work:
-                raise _Raise(E_INTEG)
-            del self.work[where]
-            self.work[newpk] = newv
-        for o in new:
-            ob = objs[o]
-            if ob.dv is None:
-                raise OutOfScope("pending object with no v value")
-            if ob.did in self.work:
-                raise _Raise(E_INTEG)
-            self.work[ob.did] = ob.dv
-        for o in sorted(deleted, key=lambda o: objs[o].key):
-            ob = objs[o]
-            if ob.cid is None and ob.did is None:
-                self.load_expired(o, True)
-            pk = ob.cid if ob.cid is not None else ob.did
-            if pk is None:
-                raise OutOfScope("no pk")
-            self.work.pop(pk, None)
+        stmts = ([("U", o) for o in persistent] + [("I", o) for o in new]
+                 + [("D", o) for o in sorted(deleted, key=lambda o: objs[o].key)])
+        for i, (kind, o) in enumerate(stmts):
+            try:
+                self.do_stmt(kind, o)
+            except _Raise:
+                # persistence collects the parameters of a batch (with the SELECTs of expired primary keys)
+                # before it executes it: inside a savepoint that order would be visible after the failure
+                if f.nested and any(self.needs_load(k2, o2) for k2, o2 in stmts[i + 1:]):
+                    raise OutOfScope("statement failure inside a savepoint while later statements still load their key")
+                raise
+        if fault == "after":
+            raise _Raise(E_EVENT)
         for o in deleted:
             self.remove_newly_deleted(f, o)
         other = sorted(set(new) | set(persistent))
@@ -571,6 +567,57 @@ class PyModel:
             elif o not in f.dirty:
                 f.dirty.append(o)
         self.snew = [o for o in self.snew if o not in other]
+
+    def needs_load(self, kind, o):
+        ob = self.objs[o]
+        if kind == "I":
+            return False
+        if kind == "U":
+            set_id = ob.cid is not None and ob.did is not None and ob.cid != ob.did
+            set_v = ob.cv is not None and ob.cv[0] != ob.dv
+            if not (set_id or set_v):
+                return False
+        return ob.cid is None and ob.did is None
+
+    def do_stmt(self, kind, o):
+        ob = self.objs[o]
+        if kind == "U":
+            set_id = ob.cid is not None and ob.did is not None and ob.cid != ob.did
+            set_v = ob.cv is not None and ob.cv[0] != ob.dv
+            if not (set_id or set_v):
+                return
+            if ob.cid is None and ob.did is None:
+                self.load_expired(o, True)
+            where = ob.cid if ob.cid is not None else ob.did
+            if where is None:
+                raise OutOfScope("no pk")
+            if where not in self.work:
+                self._dml()
+                raise _Raise(E_STALE)
+            newpk = ob.did if set_id else where
+            if set_v and ob.dv is None:
+                raise OutOfScope("v deleted")
+            newv = ob.dv if set_v else self.work[where]
+            if newpk != where and newpk in self.work:
+                raise _Raise(E_INTEG)
+            del self.work[where]
+            self.work[newpk] = newv
+            self._dml()
+        elif kind == "I":
+            if ob.dv is None:
+                raise OutOfScope("pending object with no v value")
+            if ob.did in self.work:
+                raise _Raise(E_INTEG)
+            self.work[ob.did] = ob.dv
+            self._dml()
+        else:
+            if ob.cid is None and ob.did is None:
+                self.load_expired(o, True)
+            pk = ob.cid if ob.cid is not None else ob.did
+            if pk is None:
+                raise OutOfScope("no pk")
+            self.work.pop(pk, None)
+            self._dml()
 
     def remove_newly_deleted(self, f, o):
         if o not in f.deleted:
@@ -657,6 +704,8 @@ class PyModel:
             self.sdel.append(o)
         elif c == FLUSH:
             self.flush()
+        elif c == FLUSHF:
+            self.flush({0: ("stmt", op[2]), 1: "pre", 2: "after", 3: "post"}[op[1]])
         elif c == NESTED:
             self.handles.append(None)
             p = self.autobegin()
@@ -928,6 +977,10 @@ def _code(ex):
 
     if ex is None:
         return 0
+    if _ENV.get("code_ext"):       # C32: injected failures
+        c = _ENV["code_ext"](ex)
+        if c is not None:
+            return c
     for cls, c in ((exc.PendingRollbackError, E_PENDING), (exc.ResourceClosedError, E_CLOSED),
                    (exc.IllegalStateChangeError, E_ILLEGAL), (orm_exc.ObjectDeletedError, E_OBJDEL),
                    (orm_exc.DetachedInstanceError, E_DETACHED), (orm_exc.StaleDataError, E_STALE),
@@ -964,6 +1017,8 @@ def impl(c):
     N = lambda x: [] if x is None else x
     objs, handles, out = [], [], []
     s = Session(E["eng"], expire_on_commit=bool(eoc))
+    if E.get("on_session"):        # C32: flush-event listeners
+        E["on_session"](s)
     with E["warnings"].catch_warnings():
         E["warnings"].simplefilter("ignore")
         try:
@@ -986,6 +1041,8 @@ def impl(c):
                         s.delete(objs[op[1]])
                     elif k == FLUSH:
                         s.flush()
+                    elif k == FLUSHF:
+                        E["flushf"](s, op)     # C32: flush with an injected failure (specs/c32.py)
                     elif k == NESTED:
                         handles.append(None)
                         handles[-1] = s.begin_nested()
